@@ -1,0 +1,51 @@
+//go:build verif
+
+package shovel
+
+import (
+	"context"
+
+	"github.com/indexsupply/shovel/shovel/config"
+	"github.com/indexsupply/shovel/shovel/glf"
+	"github.com/jackc/pgx/v5/pgxpool"
+)
+
+// Hooks of properties C01..C06 (task layer).  Thin wrappers only: they let
+// the drivers build tasks exactly as Manager.Run does (loadTasks) and then
+// point a task at a scripted Source instead of the jrpc2 client.
+
+// VerifTaskLoad is loadTasks.
+func VerifTaskLoad(ctx context.Context, pgp *pgxpool.Pool, c config.Root) ([]*Task, error) {
+	return loadTasks(ctx, pgp, c)
+}
+
+// VerifTaskSetSource replaces the task's source.
+func (t *Task) VerifTaskSetSource(src Source) { t.src = src }
+
+// VerifTaskSource returns the task's source (the jrpc2 client built by loadTasks).
+func (t *Task) VerifTaskSource() Source { return t.src }
+
+// VerifTaskInfo describes the task as configured.
+type VerifTaskInfo struct {
+	SrcName, IGName, Table string
+	ChainID                uint64
+	Start, Stop            uint64
+	Batch, Conc            int
+	Deps                   []string
+	Filter                 glf.Filter
+}
+
+func (t *Task) VerifTaskInfo() VerifTaskInfo {
+	return VerifTaskInfo{
+		SrcName: t.srcName,
+		IGName:  t.destConfig.Name,
+		Table:   t.destConfig.Table.Name,
+		ChainID: t.srcChainID,
+		Start:   t.start,
+		Stop:    t.stop,
+		Batch:   t.batchSize,
+		Conc:    t.concurrency,
+		Deps:    append([]string(nil), t.destConfig.Dependencies...),
+		Filter:  t.filter,
+	}
+}
